@@ -85,11 +85,11 @@ def parse_log_line(line, fmt):
             ev = _blank(f[1], f[2])
             rest = f[3:]
             if f[1] == "arp":
-                if len(rest) != 5:
+                if len(rest) < 5:
                     raise ValueError("arp fields")
                 ev["ms"], ev["md"], ev["is"], ev["id"] = _mac(rest[0]), _mac(rest[1]), _ip(rest[2]), _ip(rest[3])
             else:
-                if len(rest) != 7 + TAIL_FIELDS[f[1]]:
+                if len(rest) < 7 + TAIL_FIELDS[f[1]]:
                     raise ValueError("fields")
                 if rest[0]:
                     ev["ms"] = _mac(rest[0])
